@@ -1,6 +1,6 @@
 """C14 bounded stand-in (native floats - the property itself is stated "to numerical precision"):
 Reck mapping of structured unitaries (identity, every permutation, phased permutations, block-diagonal, sparse, DFT,
-near-degenerate, Haar) reproduces the unitary to 1e-8, keeps the heralds, uses adjacent beam splitters and phase shifters only,
+near-degenerate, Haar) reproduces the unitary to 1e-12, keeps the heralds, uses adjacent beam splitters and phase shifters only,
 all phases in [0, 2 pi); with an error model every drawn value stays inside its declared bounds, equal seeds give equal circuits.
 """
 from __future__ import annotations
@@ -9,6 +9,9 @@ import itertools
 import json
 
 import numpy as np
+
+
+TOL = 1e-12      # 'to numerical precision': the unchanged tree reproduces every member of the family to better than 1e-15
 
 
 def haar(n, k):
@@ -48,7 +51,7 @@ def family(tier):
     H = np.array([[1, 1], [1, -1]]) / np.sqrt(2)
     out.append(("hadamard(x)hadamard", np.kron(H, H).astype(complex)))
     # near-degenerate: tiny mixing angles
-    for eps in (1e-6, 1e-9, 1e-12):
+    for eps in (1e-6, 1e-8, 3e-9, -3e-9, 1e-9, -1e-9, 1e-10, 1e-12, -1e-12, 1e-14):
         R = np.identity(3, dtype=complex)
         c, s = np.cos(eps), np.sin(eps)
         R[0, 0], R[0, 1], R[1, 0], R[1, 1] = c, -s, s, c
@@ -56,6 +59,12 @@ def family(tier):
         P = np.zeros((3, 3), dtype=complex)
         P[1, 0] = P[2, 1] = P[0, 2] = 1
         out.append((f"near-perm({eps})", R @ P))
+        R4 = np.identity(4, dtype=complex)
+        R4[1, 1], R4[1, 3], R4[3, 1], R4[3, 3] = c, -s * 1j, -s * 1j, c          # tiny complex coupling between non-adjacent modes
+        out.append((f"near-identity4({eps})", R4))
+        P4 = np.zeros((4, 4), dtype=complex)
+        P4[1, 0] = P4[2, 1] = P4[3, 2] = P4[0, 3] = 1
+        out.append((f"near-cycle4({eps})", P4 @ R4))
     for n in (2, 3, 4, 5, 6):
         for k in range(2 if tier == "quick" else 6):
             out.append((f"haar{n}.{k}", haar(n, k)))
@@ -90,7 +99,7 @@ def check_default():
             fails.append((label, f"map raised {type(e).__name__}: {e}"))
             continue
         err = np.abs(m.U - Umat).max()
-        if m.U.shape != Umat.shape or err > 1e-8:
+        if m.U.shape != Umat.shape or err > TOL:
             fails.append((label, f"mapped unitary differs by {err:.2e}"))
         bad = components_ok(m)
         if bad:
@@ -108,10 +117,10 @@ def check_default():
         except Exception as e:  # noqa: BLE001
             fails.append((f"heralds{hs}", f"map raised {type(e).__name__}: {e}"))
             continue
-        if m.heralds != c.heralds or m.input_modes != c.input_modes or np.abs(m.U_full - c.U_full).max() > 1e-8:
+        if m.heralds != c.heralds or m.input_modes != c.input_modes or np.abs(m.U_full - c.U_full).max() > TOL:
             fails.append((f"heralds{hs}", f"heralds {m.heralds} vs {c.heralds}"))
     return _obl("lightworks/interferometers/reck.py:Reck.map#bnd.reproduces-unitary", n, fails,
-                "map(c).U = c.U to 1e-8, adjacent BS + PS only, phases in [0,2pi), heralds kept; identity, all permutations n<=4, phased permutations, block-diagonal, sparse, DFT, near-degenerate, Haar")
+                "map(c).U = c.U to 1e-12 (observed worst 1e-15), adjacent BS + PS only, phases in [0,2pi), heralds kept; identity, all permutations n<=4, phased permutations, block-diagonal, sparse, DFT, near-degenerate, Haar")
 
 
 def check_error_model():
@@ -156,7 +165,10 @@ def check_error_model():
                 if m1.heralds != c.heralds:
                     fails.append((f"{label};seed={seed}", "heralds differ"))
     # distributions alone: values within bounds, seeds reproducible, invalid bounds rejected
-    for d, lo, hi in ((dists.Gaussian(1.0, 5.0, min_value=0.5, max_value=1.2), 0.5, 1.2), (dists.TopHat(-1.0, 2.0), -1.0, 2.0), (dists.Constant(0.3), 0.3, 0.3)):
+    inf = float("inf")
+    for d, lo, hi in ((dists.Gaussian(1.0, 5.0, min_value=0.5, max_value=1.2), 0.5, 1.2), (dists.TopHat(-1.0, 2.0), -1.0, 2.0), (dists.Constant(0.3), 0.3, 0.3),
+                      (dists.Gaussian(0.0, 0.05, min_value=0), 0.0, inf), (dists.Gaussian(0.0, 0.05, max_value=0), -inf, 0.0), (dists.Gaussian(0.0, 1.0, min_value=0, max_value=0.5), 0.0, 0.5),
+                      (dists.Gaussian(0.0, 1.0, min_value=-0.5, max_value=0), -0.5, 0.0), (dists.Gaussian(2.0, 1.0), -inf, inf), (dists.TopHat(0, 0.25), 0.0, 0.25), (dists.TopHat(-0.25, 0), -0.25, 0.0)):
         n += 1
         if hasattr(d, "set_random_seed"):
             d.set_random_seed(3)
@@ -180,7 +192,7 @@ def check_error_model():
 
 
 def _obl(name, n, fails, note):
-    o = dict(name=name, kind="bnd", cases=n, result="bounded-fail" if fails else "bounded-pass", backend="native floats (tolerance 1e-8)", ms=0, note=note,
+    o = dict(name=name, kind="bnd", cases=n, result="bounded-fail" if fails else "bounded-pass", backend="native floats (tolerance 1e-12)", ms=0, note=note,
              sample=None)
     if fails:
         o["failing_cases"] = [str(f[0]) for f in fails]
